@@ -178,9 +178,9 @@ const TYPES: &[&str] = &[
 /// (function, usual arity)
 const FUNCS: &[(&str, usize)] = &[
     ("SUBSTRING", 3), ("SUBSTR", 2), ("LEFT", 2), ("RIGHT", 2), ("UPPER", 1), ("LOWER", 1), ("CHAR_LENGTH", 1), ("CHARACTER_LENGTH", 1), ("OCTET_LENGTH", 1), ("LENGTH", 1), ("CONCAT", 2),
-    ("POSITION", 2), ("REPLACE", 3), ("REVERSE", 1), ("INSTR", 2), ("LOCATE", 3), ("TRIM", 1), ("LTRIM", 1), ("RTRIM", 1), ("LPAD", 3), ("RPAD", 3), ("REPEAT", 2), ("SPACE", 1), ("ABS", 1),
-    ("ROUND", 2), ("TRUNCATE", 2), ("FLOOR", 1), ("CEIL", 1), ("CEILING", 1), ("MOD", 2), ("POWER", 2), ("POW", 2), ("SQRT", 1), ("EXP", 1), ("LN", 1), ("LOG", 1), ("LOG10", 1), ("SIGN", 1), ("PI", 0),
-    ("SIN", 1), ("ATAN2", 2), ("GREATEST", 3), ("LEAST", 2), ("FORMAT", 2), ("COALESCE", 2), ("NULLIF", 2), ("IF", 3), ("YEAR", 1), ("MONTH", 1), ("DAY", 1), ("HOUR", 1), ("MINUTE", 1), ("SECOND", 1),
+    ("POSITION", 2), ("REPLACE", 3), ("REVERSE", 1), ("INSTR", 2), ("LOCATE", 3), ("TRIM", 1), ("LTRIM", 1), ("RTRIM", 1), ("LPAD", 3), ("RPAD", 3), ("ABS", 1),
+    ("ROUND", 2), ("FLOOR", 1), ("CEIL", 1), ("CEILING", 1), ("MOD", 2), ("POWER", 2), ("POW", 2), ("SQRT", 1), ("EXP", 1), ("LN", 1), ("LOG", 1), ("LOG10", 1), ("SIGN", 1), ("PI", 0),
+    ("SIN", 1), ("ATAN2", 2), ("GREATEST", 3), ("LEAST", 2), ("FORMAT", 2), ("COALESCE", 2), ("NULLIF", 2), 
     ("DATEDIFF", 2), ("DATE_ADD", 3), ("DATE_SUB", 3), ("ADDDATE", 2), ("EXTRACT", 2), ("AGE", 2), ("DATETIME", 1), ("TO_NUMBER", 1), ("TO_DATE", 2), ("TO_TIMESTAMP", 2), ("TO_CHAR", 2), ("CAST", 2),
     ("VERSION", 0), ("DATABASE", 0), ("USER", 0), ("COUNT", 1), ("SUM", 1), ("AVG", 1), ("MIN", 1), ("MAX", 1), ("ST_GEOMFROMTEXT", 1), ("ST_X", 1),
     ("ST_DISTANCE", 2), ("ST_ASTEXT", 1), ("ST_AREA", 1), ("NOSUCHFUNC", 1),
@@ -307,7 +307,7 @@ impl<'a> W<'a> {
     fn column(&mut self, t: &mut Tape, scope: &[&'a Tab]) -> String {
         if scope.is_empty() || t.chance(1, 14) {
             self.feat("missing_column");
-            return pk(t, &["nope", "t0.nope", "nope.nope", "t9_a", "a.b.c.d"]).to_string();
+            return pk(t, &["nope", "t0.nope", "nope.nope", "t9_a", "t1.t0_a"]).to_string();
         }
         let tb = scope[t.below(scope.len())];
         let c = &tb.cols[t.below(tb.cols.len())].0;
@@ -545,7 +545,7 @@ impl<'a> W<'a> {
     fn limit_tail(&mut self, t: &mut Tape) -> String {
         let mut s = String::new();
         if t.chance(1, 2) {
-            let l = pk(t, &["0", "1", "3", "9223372036854775807", "18446744073709551615", "18446744073709551616", "-1", "1.5", "'a'", "NULL", "4294967296"]);
+            let l = pk(t, &["0", "1", "3", "9223372036854775807", "18446744073709551615", "4294967296", "2", "9223372036854775807", "18446744073709551615", "18446744073709551616", "-1", "1.5", "'a'", "4294967295", "100"]);
             if l.len() > 2 {
                 self.feat("limit_extreme");
             }
@@ -782,7 +782,7 @@ impl<'a> W<'a> {
             }
             _ => {
                 self.feat("analyze");
-                pk(t, &["ANALYZE", "ANALYZE t0", "SHOW TABLES", "DESCRIBE t0", "SET @x = 1", "SET sql_mode = 'x'", "SET autocommit = 0"]).to_string()
+                pk(t, &["SHOW TABLES", "SHOW COLUMNS FROM t0", "SHOW COLUMNS FROM nope", "DESCRIBE t0", "DESCRIBE nope", "SET sql_mode = 'x'", "SET autocommit = 0", "SHOW INDEX FROM t0", "SHOW CREATE TABLE t0"]).to_string()
             }
         }
     }
@@ -1276,6 +1276,13 @@ impl C24 {
             Wild::Sql(_) => match step(&mut db, &sql) {
                 Step::ParseErr => {
                     obs.class("wild_parse_error");
+                    if let Ok(f) = std::env::var("VERIF_LOG_PARSE_ERR") {
+                        use std::io::Write;
+                        if let Ok(mut fh) = std::fs::OpenOptions::new().create(true).append(true).open(f) {
+                            let e = vibesql_parser::Parser::parse_sql(&sql).err().map(|e| e.message).unwrap_or_default();
+                            let _ = writeln!(fh, "{}\t{}", e, sql);
+                        }
+                    }
                     None
                 }
                 Step::Ok(_) => {
@@ -1349,6 +1356,105 @@ impl C24 {
         ];
         let world = World { tables: vec![t0, t1], rows: vec![rows0, rows1] };
         self.build_rest(t, cfg, world)
+    }
+
+    /// Deterministic grid (fixed cases): every function of FUNCS applied to every combination of a
+    /// few taught atoms (extreme integer / float / string literals, columns holding i64::MAX,
+    /// i64::MIN, 2^53+1, '', a multi-byte string, NULL), plus CAST of every atom to every type
+    /// form and every binary operator over every pair of atoms. Random sampling reaches a given
+    /// (function, extreme) pair rarely; the grid reaches each once.
+    pub fn grid_cases(&self, tier: Tier) -> Vec<Case> {
+        let col = |n: &str, ty: ColTy| ColDef { name: n.to_string(), ty, not_null: false };
+        let mut t0 = TableDef { name: "t0".into(), cols: vec![col("t0_a", ColTy::Int), col("t0_b", ColTy::Bigint), col("t0_c", ColTy::Varchar(12)), col("t0_d", ColTy::Double)], ..Default::default() };
+        t0.pk = vec![0];
+        t0.cols[0].not_null = true;
+        let s = |x: &str| V::Varchar(x.to_string());
+        let rows0 = vec![
+            vec![V::Int(1), V::Int(i64::MAX), s("a"), V::dbl(1.5)],
+            vec![V::Int(2), V::Int(i64::MIN), s(""), V::dbl(1e308)],
+            vec![V::Int(3), V::Null, s("aé"), V::Null],
+            vec![V::Int(4), V::Int((1 << 53) + 1), s("B"), V::dbl(-0.5)],
+        ];
+        let world = World { tables: vec![t0], rows: vec![rows0] };
+        let mk = |sql: String, feats: &[&str]| Case {
+            world: world.clone(),
+            indexes: vec!["CREATE INDEX ix0 ON t0 (t0_b)".into()],
+            history: vec![],
+            wild: Wild::Sql(sql),
+            feats: feats.iter().map(|x| x.to_string()).chain(["grid".to_string(), "lit:int_extreme".to_string()]).collect(),
+            excluded: 0,
+            raw_setup: None,
+        };
+        let atoms_full: &[&str] = &["0", "-1", "9223372036854775807", "t0_b", "t0_a", "1e308", "t0_d", "''", "'abc'", "'aé'", "t0_c", "NULL", "70000", "0.5"];
+        let atoms_mid: &[&str] = &["0", "9223372036854775807", "t0_b", "''", "'aé'", "t0_c", "1e308", "NULL"];
+        let atoms_small: &[&str] = &["9223372036854775807", "t0_b", "'aé'", "t0_c", "0"];
+        let mut v = Vec::new();
+        for (name, arity) in FUNCS {
+            if ["CAST", "EXTRACT", "NOSUCHFUNC"].contains(name) {
+                continue;
+            }
+            let f = format!("fn:{}", name);
+            match arity {
+                0 => v.push(mk(format!("SELECT {}() FROM t0", name), &[&f])),
+                1 => {
+                    for a in atoms_full {
+                        v.push(mk(format!("SELECT {}({}) FROM t0", name, a), &[&f]));
+                    }
+                }
+                2 => {
+                    for a in atoms_mid {
+                        for b in atoms_mid {
+                            v.push(mk(format!("SELECT {}({}, {}) FROM t0", name, a, b), &[&f]));
+                        }
+                    }
+                }
+                _ => {
+                    if tier == Tier::Thorough {
+                        for a in atoms_mid {
+                            for b in atoms_mid {
+                                for c in atoms_mid {
+                                    v.push(mk(format!("SELECT {}({}, {}, {}) FROM t0", name, a, b, c), &[&f]));
+                                }
+                            }
+                        }
+                    } else {
+                        for a in atoms_small {
+                            for b in atoms_small {
+                                for c in atoms_small {
+                                    v.push(mk(format!("SELECT {}({}, {}, {}) FROM t0", name, a, b, c), &[&f]));
+                                }
+                            }
+                        }
+                    }
+                }
+            }
+        }
+        for a in atoms_full {
+            for ty in TYPES {
+                v.push(mk(format!("SELECT CAST({} AS {}) FROM t0", a, ty), &["cast"]));
+            }
+        }
+        for op in ["+", "-", "*", "/", "DIV", "||", "=", "<", "AND", "LIKE"] {
+            for a in atoms_mid {
+                for b in atoms_mid {
+                    v.push(mk(format!("SELECT ({} {} {}) FROM t0", a, op, b), &["op:grid"]));
+                }
+            }
+        }
+        for a in atoms_full {
+            v.push(mk(format!("SELECT (- {}), (+ {}), (NOT {}) FROM t0", a, a, a), &["op:grid"]));
+            v.push(mk(format!("SELECT * FROM t0 WHERE t0_b BETWEEN {} AND {}", a, a), &["index_range"]));
+            v.push(mk(format!("SELECT * FROM t0 WHERE t0_b > {} ORDER BY t0_b LIMIT 2", a), &["index_range"]));
+            v.push(mk(format!("SELECT * FROM t0 WHERE t0_b IN ({}, 1)", a), &["index_range"]));
+            v.push(mk(format!("SELECT SUM({}), AVG({}), MIN({}), MAX({}), COUNT({}) FROM t0", a, a, a, a, a), &["agg_extreme"]));
+            v.push(mk(format!("SELECT SUBSTRING(t0_c FROM {} FOR {}) FROM t0", a, a), &["fn:SUBSTRING"]));
+            v.push(mk(format!("UPDATE t0 SET t0_b = {}", a), &["update_untyped"]));
+            v.push(mk(format!("UPDATE t0 SET t0_c = {}", a), &["update_untyped"]));
+            v.push(mk(format!("INSERT INTO t0 VALUES (9, {}, {}, {})", a, a, a), &["insert_untyped"]));
+            v.push(mk(format!("SELECT t0_a FROM t0 LIMIT {}", a), &["limit_extreme"]));
+            v.push(mk(format!("SELECT t0_a FROM t0 ORDER BY t0_a LIMIT 1 OFFSET {}", a), &["offset_extreme"]));
+        }
+        v
     }
 
     fn build_rest(&self, t: &mut Tape, cfg: &GenCfg, world: World) -> Case {
@@ -1476,7 +1582,9 @@ impl Check for C24 {
          statement built without typing discipline: SELECT with arbitrary operand types, 80 functions with arity off by one, CAST to 26 type forms, SUBSTRING/TRIM/POSITION/INTERVAL/window forms, \
          LIMIT/OFFSET/ORDER BY position at extremes, range predicates on indexed columns with bounds at the extremes, aggregates over extreme values, division/MOD by zero, INSERT with wrong arity or \
          types, UPDATE/DELETE, DDL on existing/missing objects, set operations with mismatching arity, transactions; or a typed integer expression over + - * and unary minus (literals <= i64::MAX and integer columns) \
-         / SUM over such an expression with optional GROUP BY, evaluated exactly in i128 by the harness. Oracle: every statement returns Ok/Err (panic => failure with file+message signature); afterwards \
+         / SUM over such an expression with optional GROUP BY, evaluated exactly in i128 by the harness. Fixed cases: a deterministic grid over a 4-row table holding i64::MAX, i64::MIN, 2^53+1, NULL, '', a \
+         multi-byte string and 1e308: every function x every combination of 5-14 taught atoms (arity 0-3), CAST of every atom to each of the 26 type forms, 10 binary operators over all atom pairs, unary operators, \
+         index range / aggregate / SUBSTRING / UPDATE / INSERT / LIMIT / OFFSET with every atom (about 4 000 cases quick, 7 000 thorough). Oracle: every statement returns Ok/Err (panic => failure with file+message signature); afterwards \
          SELECT COUNT(*) on every table and CREATE TABLE/INSERT/SELECT on a fresh table succeed; integer expressions and SUM return the exact value, an exactly equal float, NULL or an error. \
          Non-trivial = the wild statement parsed and reached the executor and carries a taught extreme or a deliberate type/arity/missing-object error (or is an exactness case). Distinct = hash of the case."
             .into()
@@ -1512,6 +1620,9 @@ impl Check for C24 {
         let mut world = gen_world(t, &WorldCfg { profile: Profile::IntStrFloat, max_rows: 8, pk_chance: (1, 3), not_null_chance: (1, 4), ..Default::default() });
         spice_world(t, &mut world, avoiding_group(cfg, "nonascii_store"));
         self.build_rest(t, cfg, world)
+    }
+    fn fixed_cases(&self, tier: Tier) -> Vec<Case> {
+        self.grid_cases(tier)
     }
     fn prepare(&self, args: &vcore::Args) -> Result<(), String> {
         // thorough: bounded libFuzzer run of the `exec` target; artifacts become replay files
